@@ -93,7 +93,7 @@ def run(tier):
     overlaps = {}
     for m in res_a.tagged("MISMATCH"):
         d = json.loads(m[0])
-        key = (d["id"], d["state"], json.dumps(d["left"], sort_keys=True), json.dumps(d["right"], sort_keys=True))
+        key = (d["id"], d.get("where", 0), d["state"], json.dumps(d["left"], sort_keys=True), json.dumps(d["right"], sort_keys=True))
         if key in seen:
             continue
         seen.add(key)
@@ -108,8 +108,9 @@ def run(tier):
             sig["differ_in"] = "level" if l["lv"] != rr["lv"] else ("identity_only" if same_auto else "expression")
         word = "".join(chr(x) for x in d["word"])
         overlaps.setdefault(d["id"], set()).add("%s:%s" % (kinds, sig.get("differ_in")))
-        v.mismatch(sig, "%s: at state %s the word `%s` is read by two items leading to states %s and %s: %s / %s" % (
-            r["usage"].strip().replace("\n", " "), d["state"], word, d["lto"], d["rto"],
+        v.mismatch(sig, "%s: at state %s%s the %s `%s` is read by two items leading to states %s and %s: %s / %s" % (
+            r["usage"].strip().replace("\n", " "), d["state"], " of within-word automaton #%d" % d["where"] if d.get("where") else "",
+            "token" if d.get("where") else "word", word, d["lto"], d["rto"],
             {k: l[k] for k in ("k", "t", "d", "lv", "sub")}, {k: rr[k] for k in ("k", "t", "d", "lv", "sub")}),
             {"usage": r["usage"], "word": word, "state": d["state"], "left": l, "right": rr})
     npairs = len(res_a.tagged("VALIDATED"))
